@@ -3,7 +3,7 @@
 its meta.json (detected_by.check) on a scratch copy of /repo; one line per seed: <id> <check> caught|MISSED|error."""
 import glob, json, os, re, subprocess, sys
 out, k, n = sys.argv[1], int(sys.argv[2]), int(sys.argv[3])
-dirs = sorted(d for d in glob.glob('/verif/seeded/*') if os.path.isdir(d))
+dirs = sorted(d for d in glob.glob('/verif/seeded/*') if os.path.isdir(d) and re.search(os.environ.get('RESEED_FILTER', '.'), os.path.basename(d)))
 for i, d in enumerate(dirs):
     if i % n != k:
         continue
